@@ -3,10 +3,11 @@ import Hv.Generated.FactsC10
 
 namespace Hv.C10
 
+attribute [local irreducible] classify Hv.Lockset.racyPairs in
 set_option maxRecDepth 100000 in
 /-- The kernel-checked decision for the table extracted from /repo on this run. -/
 theorem verdict : (classify Generated.factsC10).Sound (Holds Generated.factsC10.table) :=
-  classify_sound _
+  classify_sound Generated.factsC10
 
 #eval IO.println (verdictLine "C10" (classify Generated.factsC10))
 #eval IO.println s!"C10-PAIRS {(Hv.Lockset.racyPairs Generated.factsC10.table).length}"
